@@ -284,8 +284,14 @@ func (g *grpcClient) NewConn(
 		}
 	} else {
 		conn.readTrailers = func(_ *grpcUnmarshaler, call *duplexHTTPCall) http.Header {
-			// To access HTTP trailers, we need to read the body to EOF.
-			_ = discard(call)
+			// To access HTTP trailers, we need to read the body to EOF. If more
+			// of it is left than we're willing to read, there are no trailers to
+			// be had - whether or not the transport happens to have them already.
+			// (A body that had ended before can't be drained any more once the
+			// call has failed; its trailers are in all the same.)
+			if atEnd, _ := drain(call); !atEnd && !call.ResponseEnded() {
+				return nil
+			}
 			return call.ResponseTrailer()
 		}
 	}
